@@ -292,5 +292,5 @@ def run(ck, facts):
               C.loc(writers[0][2]) if writers else None)
     # attributes of one impl block must not reach its sibling blocks: otherwise permuting or inserting unrelated types changes other types' files (shares C13.R7)
     import c13
-    sub = C.SubCheck(ck, "R5", "", ["R7"], key_re=r"ast::modules|add_attrs")
+    sub = C.SubCheck(ck, "R5", "", ["R7"], key_re=r"ast::modules|add_attrs|type_context|\(assign\)|floor")
     c13.run(sub, facts)
